@@ -164,6 +164,8 @@ def run(rep, tier):
         run_encode(rep)
     with rep.part('generated error types'):
         run_generated_errors(rep)
+    with rep.part('metadata through references'):
+        run_metadata_through_refs(rep)
     ops = [{'op': 'error_encode'}, {'op': 'error_encode_kinds'}]
     for o, r in zip(ops, replay(ops)):
         rep.replayed += 1
@@ -390,6 +392,63 @@ def report_encode(rep, what):
         rep.violation('C17:encode', f'{what}; native encode of an error with one parameter of each kind: {r}', {'op': {'op': 'error_encode_kinds'}, 'native': r})
     else:
         rep.inconc(f'model mismatch C17 encode: {what}; native {r}')
+
+
+def battery_instance_id():
+    r = replay([{'op': 'error_instance_id'}])[0]
+    return [] if r.get('ok') else [f'instance id / metadata through a reference: native {r}']
+
+
+def T_empty_struct(it, ctx, args, st):
+    """Serialize of a parameterless error: serialize_struct(name, 0) then end()"""
+    from mirsym.models_std import chain_ok
+    S = ctx.gargs[0]
+    SS = it.normalize_proj(('proj', 'SerializeStruct', (S, ('path', 'serde::Serializer', ()))))
+    yield from chain_ok(it, it.call_trait(ctx.fr, S, 'serde::Serializer', 'serialize_struct', [], [args[1], st.ref(bstr(b'Err')), bv(0)], st),
+                        lambda s, ss: it.call_trait(ctx.fr, SS, 'serde::ser::SerializeStruct', 'end', [], [ss], s))
+
+
+def run_metadata_through_refs(rep):
+    """encode() keeps the error's own code, name and explicit instance id -- also when the error type is `&T` (the library's
+    `impl ErrorType for &T`, executed from MIR, must forward all four trait methods)"""
+    prog = program(['conjure_error', 'conjure_object'])
+    fn = find_fn(prog, 'encode', inpath='conjure_error::')
+    tm = dict(models_serde.TMODELS)
+    tm.update({('ErrProbe', 'ErrorType', 'code'): lambda it, ctx, args, st: iter([(st, Agg('ErrorCodeToken', ()))]),
+               ('ErrProbe', 'ErrorType', 'name'): lambda it, ctx, args, st: iter([(st, st.ref(bstr(b'Ns:Err')))]),
+               ('ErrProbe', 'ErrorType', 'instance_id'): lambda it, ctx, args, st: iter([(st, it.some(Agg('UuidToken', ())))]),
+               ('ErrProbe', 'ErrorType', 'safe_args'): lambda it, ctx, args, st: iter([(st, st.ref(Seq(())))]),
+               ('ErrProbe', 'Serialize', 'serialize'): T_empty_struct})
+
+    def M_new_v4(it, ctx, args, st):
+        yield st, Agg('FreshUuid', ())
+    from checks import c13
+    models = [(r'.*Uuid>?::new_v4', M_new_v4)] + ENCODE_MODELS + c13.MODELS + MODELS + models_serde.MODELS + models_std.MODELS
+    P_ = lambda n: ('path', n, ())
+    for label, T, arg in (('T', P_('ErrProbe'), None), ('&T', ('ref', False, P_('ErrProbe')), 'ref')):
+        it = Interp(prog, models, tm, unwind=8)
+        st = St()
+        probe = st.ref(Agg('ErrProbe', ()))
+        a = probe if arg is None else st.ref(probe)
+        outs = []
+        for s2, rv in it.run(fn, [a], st, {'T': T}):
+            rep.states += 1
+            outs.append(rv)
+            if is_abnormal(rv) or not (isinstance(rv, Agg) and rv.name == 'SerializableError'):
+                rep.structural(f'C17:metadata:{label}', f'encode::<{label}> gives {rv!r:.120}', {}, battery_instance_id)
+                continue
+            code, name, iid = rv.fields[0], rv.fields[1], rv.fields[2]
+            ok = isinstance(code, Agg) and code.name == 'ErrorCodeToken' and isinstance(name, BStr) and bstr_py(name) == b'Ns:Err' and isinstance(iid, Agg) and iid.name == 'UuidToken'
+            rep.query(f'metadata:{label}:encode-keeps-code-name-and-explicit-instance-id', 'unsat' if ok else 'sat', 0.0, got=repr((code, name, iid))[:160])
+            if not ok:
+                rep.structural(f'C17:metadata:{label}', f'encode() of an error of type {label}: code {code!r:.40}, name {name!r:.40}, instance id {iid!r:.40} instead of the error\'s own '
+                               '(explicit instance ids must survive)', {'type': label}, battery_instance_id)
+        if not outs:
+            rep.inconc(f'vacuity: encode::<{label}> has no outcome')
+        finish_engine(rep, it)
+    for fail in battery_instance_id():
+        rep.violation('C17:native:instance-id', f'native twin: {fail}', {'native': fail})
+    rep.replayed += 1
 
 
 def battery_gen_error():
